@@ -41,11 +41,16 @@ from harness.common import NCPU, Check, MachineryError, cleanup, run_tlc, workdi
 LEVEL = "model_checking"
 
 # stable keys of the disagreements between halmos and the property (minimal scenarios)
-KEY_ORDER = "early-exit-order-dependent:panic(sat_valid),stuck|early-exit"
-KEY_PRECEDENCE = "precedence-timeout-over-stuck:panic(unknown),stuck(unknown)"
-KEY_SPAWN = "stuck-confirm-exception-masks-fail:panic(sat_valid),stuck(spawnfail)"
+KEY_ORDER = "early-exit-order-dependent:panic-sat_valid,stuck:early-exit"
+KEY_PRECEDENCE = "precedence-timeout-over-stuck:panic-unknown,stuck-unknown"
+KEY_SPAWN = "stuck-confirm-exception-masks-fail:panic-sat_valid,stuck-spawnfail"
 
 BATCH = 6
+
+
+def c05_plain(key: str) -> str:
+    """Violation keys are matched with re.fullmatch against KNOWN_FINDINGS.json: no regex metacharacters."""
+    return key.replace("(", "-").replace(")", "").replace("|", ":").replace(">", "~").replace("+", "&")
 
 QUICK = {
     "verify": ["q3", "exit"],
@@ -206,7 +211,7 @@ def c05_required_class_key(s: vr.VScn, code: int) -> str:
     k = vr.verdict_finding_key(s, code)
     return {"precedence:timeout-over-stuck": KEY_PRECEDENCE,
             "early-exit-order-dependent:stuck-confirm-raises": KEY_ORDER,
-            "stuck-confirm-exception-masks-fail": KEY_SPAWN}.get(k, k)
+            "stuck-confirm-exception-masks-fail": KEY_SPAWN}.get(k, c05_plain(k))
 
 
 def run(chk: Check, tier: str):
@@ -444,7 +449,7 @@ def _run(chk: Check, tier: str, P: dict, rnd, work, pool, t_start):
         if len(classes) > 1:
             s0 = lst[0][0]
             pairs = [(s.sched_key(), vr.CLASS_OF[o["exitcode"]], o["exitcode"]) for s, o, _ in lst]
-            k = KEY_ORDER if (s0.early and any(a["o"] == "stuck" for a in s0.arms)) else f"order-dependent:{key}"
+            k = KEY_ORDER if (s0.early and any(a["o"] == "stuck" for a in s0.arms)) else c05_plain(f"order-dependent:{key}")
             chk.violation(k, f"{key}: the verdict depends on the order in which threads run: {pairs}; required {s0.required}",
                           {"assignment": key, "runs": pairs, "scenarios_raw": [r for _, _, r in lst]})
     for _, _, key, what, rep in sorted(prop_viol, key=lambda t: t[:4]):
@@ -475,6 +480,7 @@ def _run(chk: Check, tier: str, P: dict, rnd, work, pool, t_start):
             raise MachineryError(f"TLC found no counterexample for MC_Verdict_{n}.cfg: the model no longer shows the deviation (halmos changed? update the model and the keys)")
         chk.cov.setdefault("model_counterexamples", {})[n] = c05_trace_summary(r.stdout)
     never = {}
+    taken: dict = {}
     for n, f in ver_f.items():
         r = f.result()
         if not r.ok:
@@ -482,10 +488,16 @@ def _run(chk: Check, tier: str, P: dict, rnd, work, pool, t_start):
         chk.add_tlc(r)
         chk.cov.setdefault("tlc_runs", {})[n] = {"distinct": r.distinct_states, "generated": r.states_generated, "depth": r.depth, "wall_s": round(r.wall_s, 1)}
         for act, (d, t) in r.coverage.items():
+            taken[act] = taken.get(act, 0) + t
             if t == 0:
                 never.setdefault(n, []).append(act)
     if never:
-        chk.cov["actions_never_taken"] = never
+        chk.cov["actions_never_taken_per_config"] = never  # restricted configurations (e.g. no --early-exit, not refinable)
+    if tier == "thorough":
+        dead = sorted(a for a, t in taken.items() if t == 0)
+        chk.cov["action_transition_counts"] = taken
+        if dead or len(taken) < 18:
+            raise MachineryError(f"actions of Verdict.tla never taken in any configuration (or coverage not parsed): {dead} / {sorted(taken)}")
     phases["verification"] = round(time.time() - t_start, 1)
     chk.cov["exhaustive"] = True
     chk.cov["rule"] = ("Verdict.tla: every assignment of outcomes x solver replies x flags, every interleaving (TLC); "
